@@ -249,7 +249,7 @@ class tokenizer(object):
             t = self.token()
             # we're finished when we see the eoftoken OR when we added a newline
             # to the input and we're there now
-            if t is eoftoken or (self._added_newline and
+            if t.ttype == tokentype.EOF or (self._added_newline and
                                  t.lexpos + 1 == len(self._shell_input_line)):
                 break
             yield t
@@ -275,7 +275,7 @@ class tokenizer(object):
 
         if (self._parserstate & parserflags.EOFTOKEN and
             self._current_token.ttype == self._shell_eof_token):
-            self._current_token = eoftoken
+            self._current_token = token(tokentype.EOF, None)
             # bash/parse.y L2626
         self._parserstate.discard(parserflags.EOFTOKEN)
 
@@ -296,7 +296,10 @@ class tokenizer(object):
             character = self._getc(True)
 
         if character is None:
-            return eoftoken
+            # a token of our own: the LR engine records the lexer on the
+            # token it reports an error for, a shared one would keep the
+            # lexer of the first parse that failed at end of input
+            return token(tokentype.EOF, None)
 
         if character == '#':
             self._discard_until('\n')
